@@ -48,7 +48,7 @@ fn gen_bracket(seed: u64) -> Plan {
     let mut s = ServerSpec::basic(Mode::F, &random_seed_hex(&mut rng));
     s.workers = *rng.pick(&[1i64, 2, 4]);
     s.batch_size = *rng.pick(&[1i64, 8, 64]);
-    s.source = if rng.chance(1, 2) { ConfigSource::File } else { ConfigSource::Env };
+    process_settings(&mut rng, &mut s);
     world_knobs(&mut rng, &mut plan, false);
     plan.world.wall_secs = pick_secs(&mut rng).min(Y9999 - 20);
     plan.world.wall_nanos = *rng.pick(&EDGES);
